@@ -151,3 +151,53 @@ Qed.
 
 Lemma flatten_simple l : flatten (map QSimple l) = l.
 Proof. unfold flatten. induction l as [|x l IH]; simpl; [reflexivity | rewrite IH; reflexivity]. Qed.
+
+(* ---- requests of the body followed by the requests for the wrapper names ---- *)
+Lemma new_symbols_app ns gen r1 r2 cs g :
+  new_symbols ns gen (r1 ++ r2) = Some (cs, g) ->
+  exists cs1 g1 cs2, new_symbols ns gen r1 = Some (cs1, g1) /\ new_symbols ns g1 r2 = Some (cs2, g) /\ cs = (cs1 ++ cs2)%list.
+Proof.
+  revert gen cs g; induction r1 as [|[req res] r IH]; intros gen cs g; simpl.
+  - intros H. exists [], gen, cs. repeat split; [exact H].
+  - destruct (new_symbol ns gen req res) as [[c g']|] eqn:E; [|discriminate].
+    destruct (new_symbols ns g' (r ++ r2)) as [[cs' g'']|] eqn:E2; [|discriminate].
+    intros H; injection H as <- <-.
+    destruct (IH _ _ _ E2) as [cs1 [g1 [cs2 [A [B ->]]]]].
+    exists (c :: cs1), g1, cs2. rewrite A. repeat split; [exact B].
+Qed.
+
+Lemma new_symbols_length ns gen reqs cs g : new_symbols ns gen reqs = Some (cs, g) -> length cs = length reqs.
+Proof.
+  intros H. apply new_symbols_reserved in H. induction H as [|c rq cs' rqs _ _ IH]; simpl; [reflexivity | rewrite IH; reflexivity].
+Qed.
+
+Lemma captured_nil bound outside : (forall x, In x outside -> ~ In x bound) -> captured bound outside = [].
+Proof.
+  intros H. unfold captured. induction outside as [|x l IH]; simpl; [reflexivity|].
+  destruct (mem x bound) eqn:E.
+  - exfalso. apply (H x); [left; reflexivity | apply mem_In, E].
+  - apply IH. intros y Hy; apply H; right; exact Hy.
+Qed.
+
+Lemma wrappers_never_capture ns gen body wrappers outside :
+  incl outside ns ->
+  exists cs_body cs_wr g,
+    new_symbols ns gen (body ++ wrapper_requests wrappers) = Some ((cs_body ++ cs_wr)%list, g) /\
+    length cs_body = length body /\ length cs_wr = length wrappers /\
+    NoDup (cs_body ++ cs_wr) /\
+    (forall c, In c cs_wr -> ~ In c ns /\ ~ In c gen) /\
+    captured cs_wr outside = [].
+Proof.
+  intros Hout.
+  destruct (new_symbols ns gen (body ++ wrapper_requests wrappers)) as [[cs g]|] eqn:E;
+    [|exfalso; eapply new_symbols_total; exact E].
+  destruct (new_symbols_app _ _ _ _ _ _ E) as [cs1 [g1 [cs2 [A [B ->]]]]].
+  exists cs1, cs2, g. split; [reflexivity|].
+  split; [eapply new_symbols_length; exact A|].
+  split; [erewrite new_symbols_length by exact B; unfold wrapper_requests; apply map_length|].
+  destruct (new_symbols_fresh _ _ _ _ _ E) as [ND [F _]].
+  split; [exact ND|].
+  assert (F2 : forall c, In c cs2 -> ~ In c ns /\ ~ In c gen) by (intros c Hc; apply F, in_or_app; right; exact Hc).
+  split; [exact F2|].
+  apply captured_nil. intros x Hx Hb. destruct (F2 _ Hb) as [N _]. apply N, Hout, Hx.
+Qed.
